@@ -31,6 +31,21 @@ CHECKS = {
          "Every sequence of up to 4 (thorough 5) rows over a 3-column alphabet, every key choice incl. composite/reordered/none, three spill patterns and every removable column set is fed to two real sorters; SortedBlocks and SortedRows are compared with sort+dedupe, with each other, and the temp directory is listed after Close. A second family runs under a build-time overlay that scales the block size to 3 so duplicates and spills straddle block boundaries. The sorter's logic depends on order relations between a few rows and chunk heads, which this scope exhausts.",
          "Trusted: 60-line sort+dedupe model; the overlay only replaces the literal 255 by 3 in sorter.go/block.go/table.go (fail-closed if the text changes). Long cells and many-chunk merges beyond 8 rows are not covered.",
          "DESIGN.md §4 C19"),
+ "C01": ("exploration",
+         "bounded-exhaustive enumeration of CSV tables x key x configuration through the real ingest, read back and compared with the CSV",
+         "Every small table (1..3 columns, 3-value cells, up to 4 rows, every ordered key subset), hostile cell contents at every position, cells at and around the 65535-byte limit, rows crossing 64 KiB, and 254..766-row tables with duplicates on chunk and block boundaries are ingested by the real ingest.IngestTable (and `wrgl commit`/`wrgl export` on disk) under run sizes that force 0..n spills, 1..3 workers and 4 delimiters; the stored table is read back and compared with what encoding/csv parses from the same text.",
+         "Trusted: encoding/csv as the definition of the CSV's rows; the sort+dedupe model; in-memory object store. Cell lengths away from the 16-bit boundary and files that do not fit in memory are not covered.",
+         "DESIGN.md §4 C01"),
+ "C02": ("exploration",
+         "bounded-exhaustive enumeration of logical tables: all permutations/configurations must agree, all neighbours and all family members must differ (cross-worker injectivity merge)",
+         "For every logical table of the small family all row permutations x run sizes x worker counts x delimiters are ingested into fresh stores and must yield one identifier; every one-cell, column-name, column-order and key variant must yield a different one; the map identifier -> logical table over the whole enumerated family is merged across workers and must be injective. Multi-block tables and the CLI's unchanged-file detection are covered by separate families.",
+         "Trusted: canonical-table rendering; 64-bit hash of the canonical form in the injectivity merge (a collision can only hide, never raise, an alarm).",
+         "DESIGN.md §4 C02"),
+ "C03": ("exploration",
+         "bounded-exhaustive enumeration of tables per producer, each checked by an independent structural oracle and by the repository's doctor",
+         "All 1024 key subsets of a 10-key universe under a build-time overlay that scales the block size to 3 (0..4 blocks), the block-boundary sizes at the real block size, and doctor-resolved twins of corrupted tables are produced by the real code and checked clause by clause (row count, full blocks, key order, hashes and block-index entries recomputed by an independent encoder, table index, profile) and by doctor.Diagnose. Merge results and received tables go through the same oracle in C05/C07.",
+         "Trusted: the 150-line structural oracle with its independent string-list/block encoder; meow hash and s2 libraries; the overlay that replaces the literal block size (fail-closed).",
+         "DESIGN.md §4 C03"),
 }
 
 NOT_YET = {}
